@@ -469,6 +469,8 @@ func runFailover(c foCase, rng *rand.Rand, policy int, forced []int) foResult {
 		case "fin":
 			if lastEv[t] == "fo.unlocked" || lastEv[t] == "" {
 				e = fmt.Sprintf("gu:%d", t)
+			} else {
+				e = fmt.Sprintf("fi:%d", t)
 			}
 		default:
 			e = fmt.Sprintf("unknown-%s:%d", a.ev, t)
@@ -745,7 +747,7 @@ func runSwap(c swCase, rng *rand.Rand, policy int, forced []int) swResult {
 			delete(writing, t)
 			return fmt.Sprintf("ul:%d", t)
 		case "fin":
-			return ""
+			return fmt.Sprintf("fi:%d", t)
 		}
 		return fmt.Sprintf("unknown-%s:%d", a.ev, t)
 	}
